@@ -25,6 +25,11 @@ CHECKS = {
             "code before it counts", "3/C14"),
     "C18": ("TLC checks OnceEach / CausalOrder / VersionsFirst; the TLA+ observer evaluates the same operators plus late "
             "get_*() outcomes on real executions in both API flavours", "3/C18"),
+    "C04": ("FileXfer.tla: TLC checks BothOkExact / CutBeforeAllFails / SenderNeedsGoodAck / BadAckFails / DestOnlyWhenComplete "
+            "(+ termination) for payloads of 0..3 records under every fault; every distinct fault signature of its behaviours is "
+            "executed with the real `wormhole send` and `wormhole receive` commands on the simulated reactor (files around the "
+            "16 KiB record boundary, odd names, directory trees, text), faults injected at byte offsets of the transit stream; "
+            "XferObs.tla decides on the reported outcomes and the receiver's file system", "3/C04"),
     "C06": ("TransitRecords.tla: TLC checks PrefixInv / NothingAfterTamper / HungUpWhenBad / NoReadLeftBehind / ConsumerTruth under every "
             "frame-level adversary operation; a covering family (every operation x position x records already received) and "
             "simulated behaviours are executed on real, really-negotiated Connection pairs in both directions under five chunkings "
@@ -82,6 +87,8 @@ def main():
 
 
 NOTES = {
+    "C04": "payloads of 0..3 records in TLC, real payloads up to ~50 KB; receiver runs with --accept-file --no-listen; faulty "
+           "acknowledgements are produced by patching the peer receiver; C06 is the interface assumption of the model",
     "C06": "SecretBox assumed secure; <=4 records and <=2 adversary operations per direction in TLC; an altered length prefix is "
            "judged only once a complete manipulated frame has been consumed",
     "C07": "<=3 contenders per configuration, a unit split at most once, scripted relay and strangers; HKDF-derived handshakes "
